@@ -20,7 +20,9 @@ import (
 	"os"
 	"os/exec"
 	"path/filepath"
+	"regexp"
 	"sort"
+	"strconv"
 	"strings"
 
 	"verif/translator/tr"
@@ -48,8 +50,10 @@ type gen struct {
 	errs []string
 	// how each definition is tied to the source: "syntax" (read off the AST) or "sampled"
 	// (the canonical definition, justified by the behaviour samples of the probe)
-	ties    map[string]string
-	sampled []string
+	ties map[string]string
+	// min_* definitions whose syntax was not recognised: defined from the probe's samples
+	pendingMin []string
+	sampled    []string
 }
 
 // soft: the syntax of `name` was not recognised; emit the canonical definition instead and
@@ -262,14 +266,9 @@ func (g *gen) currentFormat(decls map[string]*ast.FuncDecl, key, name string) {
 	g.hard(name)
 }
 
-// minOf: the constant value of the Min field of the stater literal in the function.
-func (g *gen) minOf(decls map[string]*ast.FuncDecl, key, name string) {
-	fd := decls[key]
-	if fd == nil {
-		g.fail(name, "%s not found", key)
-		return
-	}
-	var vals []constant.Value
+// staterMin finds stater{Min: X} in fd and returns X.
+func staterMin(fd *ast.FuncDecl) []ast.Expr {
+	var out []ast.Expr
 	ast.Inspect(fd.Body, func(nd ast.Node) bool {
 		cl, ok := nd.(*ast.CompositeLit)
 		if !ok {
@@ -280,23 +279,76 @@ func (g *gen) minOf(decls map[string]*ast.FuncDecl, key, name string) {
 			return true
 		}
 		for _, el := range cl.Elts {
-			kv, ok := el.(*ast.KeyValueExpr)
-			if !ok {
-				continue
-			}
-			if k, ok := kv.Key.(*ast.Ident); ok && k.Name == "Min" {
-				if c, ok := g.constVal(kv.Value); ok && c.Kind() == constant.Int {
-					vals = append(vals, c)
+			if kv, ok := el.(*ast.KeyValueExpr); ok {
+				if k, ok := kv.Key.(*ast.Ident); ok && k.Name == "Min" {
+					out = append(out, kv.Value)
 				}
 			}
 		}
 		return true
 	})
+	return out
+}
+
+// minOf: the constant value of the Min field of the stater the entry point searches with: either
+// a stater literal in the function itself, or in a helper of the package it calls, whose Min is
+// one of the helper's parameters (then the constant is the argument at the call).
+func (g *gen) minOf(decls map[string]*ast.FuncDecl, key, name string) {
+	fd := decls[key]
+	if fd == nil {
+		g.fail(name, "%s not found", key)
+		return
+	}
+	var vals []constant.Value
+	for _, e := range staterMin(fd) {
+		if c, ok := g.constVal(e); ok && c.Kind() == constant.Int {
+			vals = append(vals, c)
+		}
+	}
+	if len(vals) == 0 {
+		ast.Inspect(fd.Body, func(nd ast.Node) bool {
+			call, ok := nd.(*ast.CallExpr)
+			if !ok {
+				return true
+			}
+			id, ok := call.Fun.(*ast.Ident)
+			if !ok {
+				return true
+			}
+			h := decls[id.Name]
+			if h == nil || h.Body == nil {
+				return true
+			}
+			var params []string
+			for _, f := range h.Type.Params.List {
+				for _, n := range f.Names {
+					params = append(params, n.Name)
+				}
+			}
+			for _, e := range staterMin(h) {
+				pid, ok := e.(*ast.Ident)
+				if !ok {
+					continue
+				}
+				for i, pn := range params {
+					if pn == pid.Name && i < len(call.Args) {
+						if c, ok := g.constVal(call.Args[i]); ok && c.Kind() == constant.Int {
+							vals = append(vals, c)
+						}
+					}
+				}
+			}
+			return true
+		})
+	}
 	if len(vals) != 1 {
-		g.fail(name, "expected one stater{Min: <constant>} in %s", key)
+		// tied by sampled behaviour instead: the probe observes which numbered state file the
+		// lookup asks for first (see probe)
+		g.pendingMin = append(g.pendingMin, name)
 		return
 	}
 	fmt.Fprintf(&g.b, "Definition %s : Z := %s.\n", name, tr.CoqZ(vals[0]))
+	g.hard(name)
 }
 
 // dirOf: func (n T) Dir() string { return "lit" }
@@ -646,17 +698,21 @@ import (
 	"net/http"
 	"strings"
 	"testing"
+	"time"
 )
 
 type verifProbeRT struct {
 	last string
 	body string
+	urls []string
+	only bool // answer the first request only (the current state), 404 afterwards
 }
 
 func (rt *verifProbeRT) RoundTrip(r *http.Request) (*http.Response, error) {
 	rt.last = r.URL.String()
+	rt.urls = append(rt.urls, rt.last)
 	code := 404
-	if rt.body != "" {
+	if rt.body != "" && !(rt.only && len(rt.urls) > 1) {
 		code = 200
 	}
 	return &http.Response{StatusCode: code, Body: io.NopCloser(strings.NewReader(rt.body)), Header: http.Header{}, Request: r}, nil
@@ -704,6 +760,31 @@ func TestVerifProbe(t *testing.T) {
 		}
 		fmt.Printf("VERIFPROBE url %d 2 0 %s\n", kind, rt.last)
 	}
+	// the first sequence number each lookup by time considers: the request after the current state
+	for kind := 0; kind < 4; kind++ {
+		rt.body = "sequenceNumber=5000000\ntimestamp=2020-01-01T00\\:00\\:00Z\n"
+		if kind == 3 {
+			rt.body = "---\nlast_run: 2020-01-01 00:00:00.000000000 +00:00\nsequence: 4999999\n"
+		}
+		rt.urls = nil
+		rt.only = true
+		t0 := time.Date(2019, 1, 1, 0, 0, 0, 0, time.UTC)
+		switch kind {
+		case 0:
+			ds.MinuteStateAt(ctx, t0)
+		case 1:
+			ds.HourStateAt(ctx, t0)
+		case 2:
+			ds.DayStateAt(ctx, t0)
+		default:
+			ds.ChangesetStateAt(ctx, t0)
+		}
+		rt.only = false
+		if len(rt.urls) >= 2 {
+			fmt.Printf("VERIFPROBE first %d %s\n", kind, rt.urls[1])
+		}
+	}
+	rt.body = ""
 	// the changeset sequence correction: number in the file name n (0 = current), number inside k
 	for _, s := range [][2]uint64{{0, 0}, {0, 5}, {0, 2008003}, {7, 3}, {7, 7}, {7, 6}, {2008004, 2008003}, {1, 100}, {12345, 0}} {
 		rt.body = fmt.Sprintf("---\nlast_run: 2016-07-02 22:46:01.422137422 +00:00\nsequence: %d\n", s[1])
@@ -720,6 +801,8 @@ func TestVerifProbe(t *testing.T) {
 	}
 }
 `
+
+var firstRe = regexp.MustCompile(`/([0-9]+)/([0-9]{3})/([0-9]{3})\.state\.txt$`)
 
 // probe: behaviour samples of the fetch path (request URLs, changeset sequence correction)
 func (g *gen) probe(repo, out string) {
@@ -741,10 +824,19 @@ func (g *gen) probe(repo, out string) {
 	cmd.Dir = abs
 	outb, err := cmd.CombinedOutput()
 	var urls, fixes []string
+	firsts := map[string]uint64{}
 	for _, l := range strings.Split(string(outb), "\n") {
 		f := strings.Fields(l)
 		if len(f) == 6 && f[0] == "VERIFPROBE" && f[1] == "url" {
 			urls = append(urls, fmt.Sprintf("(%s, %s, %s, %s)", f[2], f[3], f[4], tr.CoqString(f[5])))
+		}
+		if len(f) == 4 && f[0] == "VERIFPROBE" && f[1] == "first" {
+			if m := firstRe.FindStringSubmatch(f[3]); m != nil {
+				a, _ := strconv.ParseUint(m[1], 10, 64)
+				b, _ := strconv.ParseUint(m[2], 10, 64)
+				c, _ := strconv.ParseUint(m[3], 10, 64)
+				firsts[f[2]] = a*1000000 + b*1000 + c
+			}
 		}
 		if len(f) == 5 && f[0] == "VERIFPROBE" && f[1] == "fix" {
 			fixes = append(fixes, fmt.Sprintf("(%s, %s, %s)", f[2], f[3], f[4]))
@@ -760,6 +852,28 @@ func (g *gen) probe(repo, out string) {
 	}
 	fmt.Fprintf(&g.b, "(* behaviour samples (go test -overlay probe through the exported entry points, base URL http://B):\n   (kind, what (0 state file, 1 data file, 2 current state), n, requested URL) *)\n")
 	fmt.Fprintf(&g.b, "Definition url_samples : list (Z * Z * Z * string) := [%s].\n", strings.Join(urls, ";\n  "))
+	kinds := []string{"min_minute", "min_hour", "min_day", "min_changesets"}
+	var fl []string
+	for k, nm := range kinds {
+		v, ok := firsts[strconv.Itoa(k)]
+		if !ok {
+			continue
+		}
+		fl = append(fl, fmt.Sprintf("(%d, %d)", k, v))
+		for _, pn := range g.pendingMin {
+			if pn == nm {
+				fmt.Fprintf(&g.b, "(* %s: no stater{Min: <constant>} recognised: the value is the first numbered state file the lookup asks for (sampled behaviour) *)\nDefinition %s : Z := %d.\n", nm, nm, v)
+				g.ties[nm] = "sampled"
+			}
+		}
+	}
+	for _, pn := range g.pendingMin {
+		if g.ties[pn] == "" {
+			g.fail(pn, "neither the syntax nor the probe gave the first sequence number")
+		}
+	}
+	fmt.Fprintf(&g.b, "(* (kind, sequence number of the first numbered state file a lookup by time asks for) *)\n")
+	fmt.Fprintf(&g.b, "Definition first_samples : list (Z * Z) := [%s].\n", strings.Join(fl, "; "))
 	fmt.Fprintf(&g.b, "(* (number in the file name (0 = current), number inside the file, SeqNum returned) *)\n")
 	fmt.Fprintf(&g.b, "Definition fix_samples : list (Z * Z * Z) := [%s].\n", strings.Join(fixes, "; "))
 }
